@@ -591,6 +591,24 @@ def model_check(ev, work):
         die_broken("negative control: with the fault steps enabled TLC does not report Robust violated (vacuous contract?) -- %s %s\n%s"
                    % (r2.violated, r2.error, r2.out[-1200:]))
     ev.cov["negative_control"] = "FaultSpec: Robust violated as expected (%d states)" % r2.distinct
+    # the abstract catalogue of structured corruptions: TLC enumerates it, the concretiser's tables must agree with it
+    r3 = T.tlc(os.path.join(SPEC, "C06Universe.tla"), os.path.join(SPEC, "MC_C06Universe.cfg"), workers=1, timeout=600, xmx="2g")
+    if not r3.ok:
+        die_broken("TLC failed on C06Universe: %s\n%s" % (r3.error or r3.violated, r3.out[-1500:]))
+    flat = re.sub(r"\s+", " ", r3.out)
+    m = re.search(r'<<"FIELDS", \[([^\]]*)\]>>', flat)
+    fields = dict((a.strip(), int(b)) for a, b in (x.split("|->") for x in m.group(1).split(","))) if m else {}
+    m = re.search(r'<< ?"VALUES", \{([^}]*)\} ?>>', flat)
+    values = set(x.strip().strip('"') for x in m.group(1).split(",")) if m else set()
+    m = re.search(r'<< ?"REPAIRABLE", \{([^}]*)\} ?>>', flat)
+    repairable = set(x.strip().strip('"') for x in m.group(1).split(",")) if m else set()
+    m = re.search(r'<< ?"CATALOGUE", (\d+) ?>>', flat)
+    mine = {k: len(v) for k, v in G.FIELDS.items()}
+    if fields != mine or values != set(G.VALUE_CLASSES) or repairable != set(G.REPAIRABLE) or set(G.VGROUP) != values or not m:
+        die_broken("the concretiser's field / value tables disagree with spec/C06Universe.tla: spec %s %s %s, gen %s %s %s" % (
+            fields, sorted(values), sorted(repairable), mine, sorted(G.VALUE_CLASSES), sorted(G.REPAIRABLE)))
+    ev.cov["structured_catalogue"] = {"abstract_elements": int(m.group(1)), "object_classes": len(fields), "value_classes": len(values),
+                                      "checked_by": "TLC (spec/C06Universe.tla: CatalogueOK) and compared with gen/c06_inputs.py FIELDS"}
     return None
 
 
@@ -642,7 +660,7 @@ def load_known(vd):
                     vd.known.setdefault(k, d)
 
 
-QUICK_CAPS = {"asis:c13": 40, "asis": 40, "struct1": 11, "structN": 6, "unstruct": 2}
+QUICK_CAPS = {"asis:c13": 32, "asis": 40, "struct1": 10, "structN": 6, "unstruct": 2}
 
 
 def build_all(tier):
